@@ -134,8 +134,9 @@ Lemma rb_draw_cells b wid f q :
   rb_cells (rb_draw b wid f) q =
   if rb_drawable b q
   then match f (rel b q) with
-       | Some (Some c) => Some (c, wid, rel b q)
-       | Some None => None
+       | Some (PSet c) => Some (c, wid, rel b q)
+       | Some PSkip => None
+       | Some (PLine bits) => Some (LINEBASE + Z.lor (line_bits (rb_cells b q)) bits, wid, rel b q)
        | None => rb_cells b q
        end
   else rb_cells b q.
@@ -483,9 +484,10 @@ Lemma rb_draw_ok b id f :
 Proof.
   split; [apply rb_draw_frame|]. split; [reflexivity|].
   intros q. rewrite rb_draw_cells. destruct (rb_drawable b q) eqn:Hd; [|left; reflexivity].
-  destruct (f (rel b q)) as [[c|]|]; [right|right|left; reflexivity].
+  destruct (f (rel b q)) as [[c| |bits]|]; [right|right|right|left; reflexivity].
   - split; [reflexivity|]. right. exists c. reflexivity.
   - split; [reflexivity|]. left. reflexivity.
+  - split; [reflexivity|]. right. eexists. reflexivity.
 Qed.
 
 (* every drawing program is such a handler *)
